@@ -56,11 +56,11 @@ def showRErr : RErr → String
   | .toc .ioError => "err tocio"
   | .toc .badToc => "err badtoc"
 
-/-- files a W3 `SegmentReader` opens in its constructor: the compound file, or the term index and
-    the postings file of a loose segment -/
-def eagerExt (n : Name) : Bool :=
-  let r := n.reverse
-  r.take 4 == ['g', 'e', 's', '.'] || r.take 4 == ['m', 'r', 't', '.'] || r.take 4 == ['t', 's', 'p', '.']
+/-- which of a segment's files the `SegmentReader` constructor opens: all the files the request
+    lists for the segment.  The harness observes, on the running code, which files a constructor
+    opens and in which order, and sends exactly those as the segment's files (so nothing about the
+    codec's laziness is hard-coded here). -/
+def eagerExt (_ : Name) : Bool := true
 
 def mstep? (tab : Tab) : SExp → Option MStep
   | .atom "r" => some .r
